@@ -102,6 +102,7 @@ def run(a, res):
             except OSError:
                 pass
             time.sleep(2.0)
+            req.recv_size, req.recv_pause = 16384, 0.004   # keep draining slowly (about 4 MB/s) until the end of the upload
             res.count("bigslow_reqmod_uploads")
         return None
 
